@@ -230,14 +230,14 @@ def errTok : Err → String
   | .panic => "panic" | .err => "err" | .fuel => "fuel"
 
 /-- an event of a session: `L <file dump>` = load that saved file into the SAME application, else an editing op -/
-def pEv : P (Ev V) := do
+def pEv : P (SEv V) := do
   let s ← get
   match s with
   | "L" :: r => do set r; let f ← pSchema; pure (.load f)
   | _ => do let o ← pOp; pure (.edit o)
 
 /-- run a session, collecting the status of every event -/
-def runStat (E : Env V V) (g : G) : List (Ev V) → G × List String
+def runStat (E : Env V V) (g : G) : List (SEv V) → G × List String
   | [] => (g, [])
   | ev :: evs =>
     match evStep E g ev with
@@ -246,7 +246,7 @@ def runStat (E : Env V V) (g : G) : List (Ev V) → G × List String
 
 /-- header (of the application when the session starts), type table, start graph (`-` = the empty graph of a new
     application, else the dump of the graph the application defines in code), session -/
-def pCase : P (Env V V × G × List (Ev V)) := do
+def pCase : P (Env V V × G × List (SEv V)) := do
   let hdr ← pHdr
   let tys ← pCounted pTy
   let rest ← get
